@@ -413,7 +413,7 @@ fn nice_in_other_unit(rng: &mut Rng, w: &World, from: &Arc<Unit>) -> f64 {
     match w.conv.convert(ConvertValue::Number(x), ConvertUnit::Unit(t), ConvertTo::Unit(ConvertUnit::Unit(from))) { Ok((ConvertValue::Number(y), _)) => y, _ => x }
 }
 
-fn random_quantity(rng: &mut Rng, w: &World) -> ScaledQuantity {
+pub fn random_quantity(rng: &mut Rng, w: &World) -> ScaledQuantity {
     let unit = match rng.below(12) {
         0 => None,
         1 => Some(rng.pick(&UNKNOWN_UNITS).to_string()),
@@ -664,7 +664,39 @@ fn run_world(ctx: &mut Ctx, w: &World, seed_tag: u64) {
     }
 }
 
+/// "picks a unit from that system's designated list" when the list comes from a later layer: the layer names best units
+/// only (no units of its own); the designated list is what the layer says, computed here from the layer text
+fn layered_best_cases(ctx: &mut Ctx) {
+    use cooklang::convert::{ConvertTo, UnitsFile};
+    let layers: [(&str, PhysicalQuantity, System, &[&str]); 4] = [
+        ("[[quantity]]\nquantity = \"volume\"\nbest = { metric = [\"l\"], imperial = [\"cup\"] }\n", PhysicalQuantity::Volume, System::Metric, &["l"]),
+        ("[[quantity]]\nquantity = \"volume\"\nbest = { metric = [\"l\"], imperial = [\"cup\"] }\n", PhysicalQuantity::Volume, System::Imperial, &["c"]),
+        ("[[quantity]]\nquantity = \"mass\"\nbest = { metric = [\"kg\"], imperial = [\"lb\"] }\n", PhysicalQuantity::Mass, System::Metric, &["kg"]),
+        ("[[quantity]]\nquantity = \"time\"\nbest = [\"min\"]\n", PhysicalQuantity::Time, System::Metric, &["min"]),
+    ];
+    for (text, pq, sys, want) in layers {
+        let desc = format!("bundled units + layer {text:?}");
+        let built = guarded(|| { let f: UnitsFile = toml::from_str(text).map_err(|e| e.to_string())?; Converter::builder().with_bundled_units().map_err(|e| e.to_string())?.with_units_file(f).map_err(|e| e.to_string())?.finish().map_err(|e| e.to_string()) });
+        let conv = match built { Ok(Ok(c)) => c, Ok(Err(e)) => { ctx.oracle_fail(desc, format!("a layer that only names best units is refused: {e}"), "c09:layer-refused".into()); continue; } Err(p) => { ctx.oracle_fail(desc, format!("panic {p}"), panic_signature(&p)); continue; } };
+        ctx.eval("", true);
+        let got: Vec<String> = conv.best_units(pq, Some(sys)).iter().map(|u| u.symbol().to_string()).collect();
+        if got != want.iter().map(|s| s.to_string()).collect::<Vec<_>>() {
+            ctx.oracle_fail(desc.clone(), format!("designated list of {pq:?}/{sys:?} is {got:?}, the later layer says {want:?}"), "c09:layer-best-list".into());
+        }
+        // and conversion to the system picks from it
+        let from = match pq { PhysicalQuantity::Volume => "ml", PhysicalQuantity::Mass => "g", _ => "s" };
+        let mut q: ScaledQuantity = Quantity::new(Value::Number(Number::Regular(1500.0)), Some(from.to_string()));
+        if let Ok(Ok(())) = guarded(|| q.convert(ConvertTo::from(sys), &conv)) {
+            let u = q.unit().unwrap_or("").to_string();
+            let ok = conv.find_unit(&u).map(|x| want.contains(&x.symbol())).unwrap_or(false);
+            if !ok { ctx.oracle_fail(desc, format!("1500 {from} converted to {sys:?} ends in {u:?}, not in the designated list {want:?}"), "c09:layer-designated".into()); }
+        }
+        ctx.count("layered-best-list");
+    }
+}
+
 pub fn run(ctx: &mut Ctx) {
+    layered_best_cases(ctx);
     ctx.rule = "Converter::convert over all ordered pairs of the units of the bundled converter x a log grid (1e-6..1e9) + zero, negatives, ranges; \
 round trip on every pair and triangle over (a sample of) all same-quantity triples; conversion to both systems and to the same system from every unit on the grid \
 and at every threshold of the target list (-0.001, 0, +0.001, each +-3 ulp); non-symbol keys, unknown keys, non-finite and extreme values; \
